@@ -41,3 +41,17 @@ C18_SIB_EXCEPTIONS = {
         "the 88-colour parser additionally accepts #rrggbb by sampling its digits; at 256 colours the caller converts through _true_to_256 first"
     ),
 }
+
+C15_INFEASIBLE = {
+    "vterm.TermCanvas.parse_csi:KeyError:CSI_COMMANDS[char]": "parse_escape calls parse_csi(char) only under `char in CSI_COMMANDS` (verified by C15.2)",
+    "vterm.TermCanvas.parse_csi:KeyError:CSI_COMMANDS[cmd_.alias]": "alias targets are existing entries of the same literal table (verified by C15.2)",
+    "vterm.TermCanvas.parse_csi:KeyError:CSI_COMMANDS[CSIAlias(*cmd_).alias]": "alias targets are existing entries of the same literal table (verified by C15.2)",
+    "vterm.TermCharset.apply_mapping:UnicodeEncodeError:ALT_DEC_SPECIAL_CHARS[dec_pos].encode('cp437')": "ALT_DEC_SPECIAL_CHARS is a constant of printable ASCII characters, all encodable in cp437",
+}
+C15_BOUNDARY_OK = {
+    f"vterm.TermCanvas.{e}:AttrSpecError:vterm.TermCanvas.reverse_attrspec": (
+        "reverse_attrspec re-parses the description produced by AttrSpec.foreground of an already valid spec at the same colour depth "
+        "(or the constant 'default'); that round trip is C18's subject"
+    )
+    for e in ("addstr", "addbyte", "resize")
+}
